@@ -5,6 +5,31 @@ import json, subprocess
 props = [json.loads(l) for l in open('/verif/properties.jsonl')]
 
 CLAIMED = {
+ "C12": dict(level="fault_enumeration",
+   text="For each of the three durable counters (global group data counter, event number, ICD check-in counter) generated histories of reservations, restarts, crashes placed before or after each individual store, and failing stores are executed against the real code with a logging in-memory KV store whose contents can be rolled back to any log prefix; the harness is the wire and checks U1 (no value used twice over all boots) and U2 (a covering boundary is stored at the moment of use). Plus an enumerated table of offsets -3..+3 around every epoch edge and the range wrap x {restart, crash before store, crash after store, store fails}.",
+   note="Component level: the harness plays Exchange::initiate_group for the group counter (mirroring its store/uncover path); the wire-level ordering U3 through the real initiate_group needs the simulator and is not part of this check. Histories start next to the wrap instead of executing a full counter period.",
+   technique="proptest histories with crash/restart/fault placement + enumerated edge table, uniqueness and covering-boundary invariants",
+   design="3/C12"),
+ "C15": dict(level="exploration",
+   text="Wire-tap invariant over simulated conversations (the C09 message scripts on planted PASE/CASE sessions and the C01 CASE handshakes, both under generated loss/duplication/delay): all datagrams with the same (sender, destination, session, counter) are byte-identical, every transmission of one application message is the same datagram, counters never go backwards; plus allocator histories in which hooks position the exchange-id / session-id allocator right before the id of a live exchange / session.",
+   note="Counters are compared in wire order with a slack of 256 (messages are numbered when built, not when sent); Interaction Model report retransmissions are covered once the IM scenarios (C13/C14) are merged into this check.",
+   technique="deterministic simulation + wire-tap grouping invariant, generated allocator histories",
+   design="3/C15"),
+ "C17": dict(level="exploration",
+   text="Per format (message and protocol headers, status reports, BDX messages, check-in messages, MCSP, QR and manual pairing codes, base-38, BLE advertisement payloads, mDNS records, Matter-TLV <-> X.509 certificate conversion, certification declarations, ParseBuf/WriteBuf): round-trip of generated legal field values field by field, comparison with independent reference encoders/decoders written from the specifications (own QR/base-38/Verhoeff/DNS/TLV-certificate code, the x509-cert crate as independent DER decoder), decoder fuzzing with raw, shaped, mutated and truncated input (no panic; accepted input must re-encode/decode consistently; invalid codes refused), and model-based op sequences for the buffer primitives.",
+   note="Two binaries (c17a, c17b) write partial evidence merged by ./check. Encoders are not required to reject out-of-contract calls; where the statement is silent (e.g. QR version != 0) either outcome is accepted.",
+   technique="proptest round-trip + differential against independent reference codecs + structured decoder fuzzing",
+   design="3/C17"),
+ "C19": dict(level="exploration",
+   text="A certificate forger in the harness writes Matter-TLV certificates field by field, signs them through the public Crypto API and builds chains that are valid or deviate from a valid chain in exactly one of 36 ways (signature, issuer/subject names, dates, every extension flag, path length, critical unknown extension, leaf identifiers, order/repetition/omission, leaf used as authority, CA used as leaf) or in random combinations; a predicate over the generator's parameters gives the expected verdict, compared in both directions with the chain verifier, with CASE certificate validation and with AddNOC/UpdateNOC on the fail-safe (including the CSR public key and fabric-already-exists rules).",
+   note="Where the statement is silent (AKID/SKID absence, authority fabric id, sub-second expiry) either outcome is accepted; AddNOC/UpdateNOC are driven on FailSafe/Fabrics directly, not through the IM handler.",
+   technique="proptest with forged certificate chains, oracle = predicate over generator parameters (both directions)",
+   design="3/C19"),
+ "C20": dict(level="exploration",
+   text="Generated sequences of up to 27 session-establishment attempts (complete PASE/CASE, wrong passcode, initiator cancels or goes silent after message k, garbage in message k, concurrent starts) from four nodes against one device whose handler tasks are cancelled at generated instants, with one established session kept in use; after the churn the virtual clock advances 200 s and every node's session/exchange table is inspected (no reserved slot, no exchange slot outside the session in use, the session in use never evicted), then a fresh node must get a handshake through. Second sub-check: Exchange::initiate futures dropped while the single-slot mDNS resolve rendezvous is Requested/InFlight, after which a legitimate resolve + CASE must be served.",
+   note="Default table sizes only; idle unsecured sessions without exchanges are allowed to linger until evicted (reclaimability is what the probe verifies); the probe may be answered Busy twice before it must succeed.",
+   technique="deterministic multi-node simulation, generated attempt/cancellation histories, table-occupancy invariant after quiescence + probe",
+   design="3/C20"),
  "C01": dict(level="exploration",
    text="Real CASE handshakes between a device holding 1-3 generated fabrics (with/without ICAC, CATs, reused node ids) and a controller, cold or with warm resumption caches, under an on-path attacker that mutates one message kind (value/payload bit flips, truncation, extension, hostile points, replay of a recorded message; consistently or once) and drops/duplicates/delays datagrams. Session tables of both stacks are compared with generator ground truth: binding to the addressed fabric / NOC node id / CATs, directional key agreement whenever both ends hold a session, and no session after a consumed value-level mutation of Sigma1/2/3/Sigma2Resume.",
    note="Mutations count only when the mutated copy was the first copy of that counter consumed by the receiving stack; fields the protocol does not authenticate on the resumption path are not required to prevent a session; the hostile-initiator (forged chain) sub-check is added with the certificate forger of C19.",
